@@ -111,6 +111,61 @@ func solveAll(units []*UnitResult, cfg solveConfig) (disagreements []string) {
 	}
 	close(ch)
 	wg.Wait()
+	// Second chance for obligations that were left undecided (or only got a candidate countermodel from the
+	// relaxed query) because a solver ran into its time limit: on a loaded machine that is not evidence of
+	// anything. They are re-run a few at a time with three times the limit.
+	if !cfg.all {
+		var again []job
+		for _, j := range jobs {
+			o := j.o
+			if o.Cover || !(o.Status == "unknown" || o.Status == "failed" && o.Relaxed) {
+				continue
+			}
+			timedOut := false
+			for _, t := range o.Tried {
+				if strings.HasSuffix(t, ":timeout") {
+					timedOut = true
+				}
+			}
+			if timedOut {
+				again = append(again, j)
+			}
+		}
+		if len(again) > 24 {
+			again = again[:24]
+		}
+		if len(again) > 0 {
+			cfg2 := cfg
+			cfg2.timeoutS = cfg.timeoutS * 3
+			par := 3
+			if cfg.jobs < par {
+				par = cfg.jobs
+			}
+			fmt.Fprintf(os.Stderr, "retrying %d obligation(s) that hit the solver time limit, %d at a time with %ds\n", len(again), par, cfg2.timeoutS)
+			ch2 := make(chan job)
+			var wg2 sync.WaitGroup
+			for i := 0; i < par; i++ {
+				wg2.Add(1)
+				go func() {
+					defer wg2.Done()
+					for j := range ch2 {
+						o := j.o
+						prev := append([]string{}, o.Tried...)
+						o.Status, o.Backend, o.Output, o.Model, o.Relaxed = "", "", "", "", false
+						o.Tried = append(prev, "retry")
+						ms0 := o.Ms
+						solveOne(j.u, o, cfg2)
+						o.Ms += ms0
+					}
+				}()
+			}
+			for _, j := range again {
+				ch2 <- j
+			}
+			close(ch2)
+			wg2.Wait()
+		}
+	}
 	return
 }
 
